@@ -331,6 +331,31 @@ func Store(arr, idx, v *Term) *Term { return App(arr.Sort, "store", arr, idx, v)
 func Forall(vars []*Term, body *Term, pats ...*Term) *Term { return quant("forall", vars, body, pats) }
 func Exists(vars []*Term, body *Term, pats ...*Term) *Term { return quant("exists", vars, body, pats) }
 
+// ForallAlt: universally quantified formula with several alternative trigger groups.
+func ForallAlt(vars []*Term, body *Term, groups [][]*Term) *Term {
+	if len(vars) == 0 {
+		return body
+	}
+	var b strings.Builder
+	b.WriteString("(forall (")
+	for _, v := range vars {
+		fmt.Fprintf(&b, "(%s %s)", v.S, sortStr(v.Sort))
+	}
+	b.WriteString(") (! " + body.S)
+	for _, g := range groups {
+		b.WriteString(" :pattern (")
+		for i, p := range g {
+			if i > 0 {
+				b.WriteString(" ")
+			}
+			b.WriteString(p.S)
+		}
+		b.WriteString(")")
+	}
+	b.WriteString("))")
+	return &Term{S: b.String(), Sort: SBool}
+}
+
 func quant(q string, vars []*Term, body *Term, pats []*Term) *Term {
 	if len(vars) == 0 {
 		return body
